@@ -1,7 +1,8 @@
 import GoLevel.Proofs.LocksPInv
 /-! A thread waiting for the ack of a compaction goroutine is that goroutine's registered waiter, or the
-alternatives of its `select` are enabled (any configuration). -/
+alternatives of its `select` are enabled (`compactionError` as coded). -/
 namespace GoLevel.Locks
+open CompErr
 set_option linter.unusedSimpArgs false
 
 def W1 (s : St) : Prop :=
@@ -34,234 +35,262 @@ theorem ackWs_get (ws : List Pc) (w : Option Nat) (b : Bool) (i : Nat) (b' : Boo
       cases hw; exact hj _ _ _ h
   · exact ⟨h, fun _ hw => by cases hw⟩
 
-theorem step_w1 (cfg : Cfg) (s t : St) (f : Bool) (h : Step cfg f s t) (inv : W1 s) : W1 t := by
+theorem step_w1 (cfg : Cfg) (hm : cfg.m = .asCoded) (s t : St) (f : Bool) (h : Step cfg f s t) (inv : W1 s) : W1 t := by
   unfold W1 at *
   cases h with
   | startPut _ i hi =>
     intro i' b' site' lg' hi'
-    (try simp only [St.setDone, St.setBg] at hi') <;> (repeat' split at hi') <;> (try simp only [List.getElem?_set] at hi') <;> grind [St.setBg, St.setDone, St.bg, Alt, clearW, onOk, onErr, selNext, afterSetErr, ackWs]
+    (try simp only [St.setDone, St.setBg] at hi') <;> (repeat' split at hi') <;> (try simp only [List.getElem?_set] at hi') <;> grind [St.setBg, St.setDone, St.bg, Alt, clearW, onOk, onErr, selNext, afterSetErr, ackWs, afterCmd, nextC]
   | startWrite _ i hi =>
     intro i' b' site' lg' hi'
-    (try simp only [St.setDone, St.setBg] at hi') <;> (repeat' split at hi') <;> (try simp only [List.getElem?_set] at hi') <;> grind [St.setBg, St.setDone, St.bg, Alt, clearW, onOk, onErr, selNext, afterSetErr, ackWs]
+    (try simp only [St.setDone, St.setBg] at hi') <;> (repeat' split at hi') <;> (try simp only [List.getElem?_set] at hi') <;> grind [St.setBg, St.setDone, St.bg, Alt, clearW, onOk, onErr, selNext, afterSetErr, ackWs, afterCmd, nextC]
   | startOtx _ i hi =>
     intro i' b' site' lg' hi'
-    (try simp only [St.setDone, St.setBg] at hi') <;> (repeat' split at hi') <;> (try simp only [List.getElem?_set] at hi') <;> grind [St.setBg, St.setDone, St.bg, Alt, clearW, onOk, onErr, selNext, afterSetErr, ackWs]
+    (try simp only [St.setDone, St.setBg] at hi') <;> (repeat' split at hi') <;> (try simp only [List.getElem?_set] at hi') <;> grind [St.setBg, St.setDone, St.bg, Alt, clearW, onOk, onErr, selNext, afterSetErr, ackWs, afterCmd, nextC]
   | startCommit _ i hi hu =>
     intro i' b' site' lg' hi'
-    (try simp only [St.setDone, St.setBg] at hi') <;> (repeat' split at hi') <;> (try simp only [List.getElem?_set] at hi') <;> grind [St.setBg, St.setDone, St.bg, Alt, clearW, onOk, onErr, selNext, afterSetErr, ackWs]
+    (try simp only [St.setDone, St.setBg] at hi') <;> (repeat' split at hi') <;> (try simp only [List.getElem?_set] at hi') <;> grind [St.setBg, St.setDone, St.bg, Alt, clearW, onOk, onErr, selNext, afterSetErr, ackWs, afterCmd, nextC]
   | startDiscard _ i hi hu =>
     intro i' b' site' lg' hi'
-    (try simp only [St.setDone, St.setBg] at hi') <;> (repeat' split at hi') <;> (try simp only [List.getElem?_set] at hi') <;> grind [St.setBg, St.setDone, St.bg, Alt, clearW, onOk, onErr, selNext, afterSetErr, ackWs]
+    (try simp only [St.setDone, St.setBg] at hi') <;> (repeat' split at hi') <;> (try simp only [List.getElem?_set] at hi') <;> grind [St.setBg, St.setDone, St.bg, Alt, clearW, onOk, onErr, selNext, afterSetErr, ackWs, afterCmd, nextC]
   | startCR _ i hi =>
     intro i' b' site' lg' hi'
-    (try simp only [St.setDone, St.setBg] at hi') <;> (repeat' split at hi') <;> (try simp only [List.getElem?_set] at hi') <;> grind [St.setBg, St.setDone, St.bg, Alt, clearW, onOk, onErr, selNext, afterSetErr, ackWs]
+    (try simp only [St.setDone, St.setBg] at hi') <;> (repeat' split at hi') <;> (try simp only [List.getElem?_set] at hi') <;> grind [St.setBg, St.setDone, St.bg, Alt, clearW, onOk, onErr, selNext, afterSetErr, ackWs, afterCmd, nextC]
   | startSR _ i hi ha =>
     intro i' b' site' lg' hi'
-    (try simp only [St.setDone, St.setBg] at hi') <;> (repeat' split at hi') <;> (try simp only [List.getElem?_set] at hi') <;> grind [St.setBg, St.setDone, St.bg, Alt, clearW, onOk, onErr, selNext, afterSetErr, ackWs]
+    (try simp only [St.setDone, St.setBg] at hi') <;> (repeat' split at hi') <;> (try simp only [List.getElem?_set] at hi') <;> grind [St.setBg, St.setDone, St.bg, Alt, clearW, onOk, onErr, selNext, afterSetErr, ackWs, afterCmd, nextC]
   | startClose _ i hi =>
     intro i' b' site' lg' hi'
-    (try simp only [St.setDone, St.setBg] at hi') <;> (repeat' split at hi') <;> (try simp only [List.getElem?_set] at hi') <;> grind [St.setBg, St.setDone, St.bg, Alt, clearW, onOk, onErr, selNext, afterSetErr, ackWs]
+    (try simp only [St.setDone, St.setBg] at hi') <;> (repeat' split at hi') <;> (try simp only [List.getElem?_set] at hi') <;> grind [St.setBg, St.setDone, St.bg, Alt, clearW, onOk, onErr, selNext, afterSetErr, ackWs, afterCmd, nextC]
   | selTok _ i p q hi hq ht =>
     intro i' b' site' lg' hi'
-    cases p <;> simp only [selNext] at hq <;> (try contradiction) <;> cases hq <;> simp only [List.getElem?_set] at hi' <;> grind [St.setBg, St.setDone, St.bg, Alt, clearW, onOk, onErr, selNext, afterSetErr, ackWs]
+    cases p <;> simp only [selNext] at hq <;> (try contradiction) <;> cases hq <;> simp only [List.getElem?_set] at hi' <;> grind [St.setBg, St.setDone, St.bg, Alt, clearW, onOk, onErr, selNext, afterSetErr, ackWs, afterCmd, nextC]
   | selPerErr _ i p q hi hq he =>
     intro i' b' site' lg' hi'
-    cases p <;> simp only [selNext] at hq <;> (try contradiction) <;> cases hq <;> simp only [List.getElem?_set] at hi' <;> grind [St.setBg, St.setDone, St.bg, Alt, clearW, onOk, onErr, selNext, afterSetErr, ackWs]
+    cases p <;> simp only [selNext] at hq <;> (try contradiction) <;> cases hq <;> simp only [List.getElem?_set] at hi' <;> grind [St.setBg, St.setDone, St.bg, Alt, clearW, onOk, onErr, selNext, afterSetErr, ackWs, afterCmd, nextC]
   | selClosed _ i p q hi hq hc =>
     intro i' b' site' lg' hi'
-    cases p <;> simp only [selNext] at hq <;> (try contradiction) <;> cases hq <;> simp only [List.getElem?_set] at hi' <;> grind [St.setBg, St.setDone, St.bg, Alt, clearW, onOk, onErr, selNext, afterSetErr, ackWs]
+    cases p <;> simp only [selNext] at hq <;> (try contradiction) <;> cases hq <;> simp only [List.getElem?_set] at hi' <;> grind [St.setBg, St.setDone, St.bg, Alt, clearW, onOk, onErr, selNext, afterSetErr, ackWs, afterCmd, nextC]
   | putNoWait _ i hi =>
     intro i' b' site' lg' hi'
-    (try simp only [St.setDone, St.setBg] at hi') <;> (repeat' split at hi') <;> (try simp only [List.getElem?_set] at hi') <;> grind [St.setBg, St.setDone, St.bg, Alt, clearW, onOk, onErr, selNext, afterSetErr, ackWs]
+    (try simp only [St.setDone, St.setBg] at hi') <;> (repeat' split at hi') <;> (try simp only [List.getElem?_set] at hi') <;> grind [St.setBg, St.setDone, St.bg, Alt, clearW, onOk, onErr, selNext, afterSetErr, ackWs, afterCmd, nextC]
   | putWait _ i b hi =>
     intro i' b' site' lg' hi'
-    (try simp only [St.setDone, St.setBg] at hi') <;> (repeat' split at hi') <;> (try simp only [List.getElem?_set] at hi') <;> grind [St.setBg, St.setDone, St.bg, Alt, clearW, onOk, onErr, selNext, afterSetErr, ackWs]
+    (try simp only [St.setDone, St.setBg] at hi') <;> (repeat' split at hi') <;> (try simp only [List.getElem?_set] at hi') <;> grind [St.setBg, St.setDone, St.bg, Alt, clearW, onOk, onErr, selNext, afterSetErr, ackWs, afterCmd, nextC]
   | putJournalOk _ i hi =>
     intro i' b' site' lg' hi'
-    (try simp only [St.setDone, St.setBg] at hi') <;> (repeat' split at hi') <;> (try simp only [List.getElem?_set] at hi') <;> grind [St.setBg, St.setDone, St.bg, Alt, clearW, onOk, onErr, selNext, afterSetErr, ackWs]
+    (try simp only [St.setDone, St.setBg] at hi') <;> (repeat' split at hi') <;> (try simp only [List.getElem?_set] at hi') <;> grind [St.setBg, St.setDone, St.bg, Alt, clearW, onOk, onErr, selNext, afterSetErr, ackWs, afterCmd, nextC]
   | putJournalFail _ i hi =>
     intro i' b' site' lg' hi'
-    (try simp only [St.setDone, St.setBg] at hi') <;> (repeat' split at hi') <;> (try simp only [List.getElem?_set] at hi') <;> grind [St.setBg, St.setDone, St.bg, Alt, clearW, onOk, onErr, selNext, afterSetErr, ackWs]
+    (try simp only [St.setDone, St.setBg] at hi') <;> (repeat' split at hi') <;> (try simp only [List.getElem?_set] at hi') <;> grind [St.setBg, St.setDone, St.bg, Alt, clearW, onOk, onErr, selNext, afterSetErr, ackWs, afterCmd, nextC]
   | putUnlock _ i r hi =>
     intro i' b' site' lg' hi'
-    (try simp only [St.setDone, St.setBg] at hi') <;> (repeat' split at hi') <;> (try simp only [List.getElem?_set] at hi') <;> grind [St.setBg, St.setDone, St.bg, Alt, clearW, onOk, onErr, selNext, afterSetErr, ackWs]
-  | cwSendGo _ i b site lg hi hb =>
+    (try simp only [St.setDone, St.setBg] at hi') <;> (repeat' split at hi') <;> (try simp only [List.getElem?_set] at hi') <;> grind [St.setBg, St.setDone, St.bg, Alt, clearW, onOk, onErr, selNext, afterSetErr, ackWs, afterCmd, nextC]
+  | cwSendGo _ i b site lg hi hb hro =>
     intro i' b' site' lg' hi'
-    (try simp only [St.setDone, St.setBg] at hi') <;> (repeat' split at hi') <;> (try simp only [List.getElem?_set] at hi') <;> grind [St.setBg, St.setDone, St.bg, Alt, clearW, onOk, onErr, selNext, afterSetErr, ackWs]
+    (try simp only [St.setDone, St.setBg] at hi') <;> (repeat' split at hi') <;> (try simp only [List.getElem?_set] at hi') <;> grind [St.setBg, St.setDone, St.bg, Alt, clearW, onOk, onErr, selNext, afterSetErr, ackWs, afterCmd, nextC]
+  | cwSendRO _ i site lg hi hb hp hro =>
+    intro i' b' site' lg' hi'
+    cases site <;> (try simp only [St.setDone, St.setBg] at hi') <;> (repeat' split at hi') <;> (try simp only [List.getElem?_set] at hi') <;> grind [St.setBg, St.setDone, St.bg, Alt, clearW, onOk, onErr, selNext, afterSetErr, ackWs, afterCmd, nextC]
   | cwSendErr _ i b site lg hi he =>
     intro i' b' site' lg' hi'
-    cases site <;> (try simp only [St.setDone, St.setBg] at hi') <;> (repeat' split at hi') <;> (try simp only [List.getElem?_set] at hi') <;> grind [St.setBg, St.setDone, St.bg, Alt, clearW, onOk, onErr, selNext, afterSetErr, ackWs]
+    cases site <;> (try simp only [St.setDone, St.setBg] at hi') <;> (repeat' split at hi') <;> (try simp only [List.getElem?_set] at hi') <;> grind [St.setBg, St.setDone, St.bg, Alt, clearW, onOk, onErr, selNext, afterSetErr, ackWs, afterCmd, nextC]
   | cwAckErr _ i b site lg hi he =>
     intro i' b' site' lg' hi'
-    cases site <;> (try simp only [St.setDone, St.setBg] at hi') <;> (repeat' split at hi') <;> (try simp only [List.getElem?_set] at hi') <;> grind [St.setBg, St.setDone, St.bg, Alt, clearW, onOk, onErr, selNext, afterSetErr, ackWs]
+    cases site <;> (try simp only [St.setDone, St.setBg] at hi') <;> (repeat' split at hi') <;> (try simp only [List.getElem?_set] at hi') <;> grind [St.setBg, St.setDone, St.bg, Alt, clearW, onOk, onErr, selNext, afterSetErr, ackWs, afterCmd, nextC]
   | otxRotate _ i lg hi =>
     intro i' b' site' lg' hi'
-    (try simp only [St.setDone, St.setBg] at hi') <;> (repeat' split at hi') <;> (try simp only [List.getElem?_set] at hi') <;> grind [St.setBg, St.setDone, St.bg, Alt, clearW, onOk, onErr, selNext, afterSetErr, ackWs]
+    (try simp only [St.setDone, St.setBg] at hi') <;> (repeat' split at hi') <;> (try simp only [List.getElem?_set] at hi') <;> grind [St.setBg, St.setDone, St.bg, Alt, clearW, onOk, onErr, selNext, afterSetErr, ackWs, afterCmd, nextC]
   | otxNoRotate _ i lg hi =>
     intro i' b' site' lg' hi'
-    (try simp only [St.setDone, St.setBg] at hi') <;> (repeat' split at hi') <;> (try simp only [List.getElem?_set] at hi') <;> grind [St.setBg, St.setDone, St.bg, Alt, clearW, onOk, onErr, selNext, afterSetErr, ackWs]
+    (try simp only [St.setDone, St.setBg] at hi') <;> (repeat' split at hi') <;> (try simp only [List.getElem?_set] at hi') <;> grind [St.setBg, St.setDone, St.bg, Alt, clearW, onOk, onErr, selNext, afterSetErr, ackWs, afterCmd, nextC]
   | otxNewMemOk _ i lg hi =>
     intro i' b' site' lg' hi'
-    (try simp only [St.setDone, St.setBg] at hi') <;> (repeat' split at hi') <;> (try simp only [List.getElem?_set] at hi') <;> grind [St.setBg, St.setDone, St.bg, Alt, clearW, onOk, onErr, selNext, afterSetErr, ackWs]
+    (try simp only [St.setDone, St.setBg] at hi') <;> (repeat' split at hi') <;> (try simp only [List.getElem?_set] at hi') <;> grind [St.setBg, St.setDone, St.bg, Alt, clearW, onOk, onErr, selNext, afterSetErr, ackWs, afterCmd, nextC]
   | otxNewMemFail _ i lg hi =>
     intro i' b' site' lg' hi'
-    (try simp only [St.setDone, St.setBg] at hi') <;> (repeat' split at hi') <;> (try simp only [List.getElem?_set] at hi') <;> grind [St.setBg, St.setDone, St.bg, Alt, clearW, onOk, onErr, selNext, afterSetErr, ackWs]
+    (try simp only [St.setDone, St.setBg] at hi') <;> (repeat' split at hi') <;> (try simp only [List.getElem?_set] at hi') <;> grind [St.setBg, St.setDone, St.bg, Alt, clearW, onOk, onErr, selNext, afterSetErr, ackWs, afterCmd, nextC]
   | otxNoWaitComp _ i lg hi =>
     intro i' b' site' lg' hi'
-    (try simp only [St.setDone, St.setBg] at hi') <;> (repeat' split at hi') <;> (try simp only [List.getElem?_set] at hi') <;> grind [St.setBg, St.setDone, St.bg, Alt, clearW, onOk, onErr, selNext, afterSetErr, ackWs]
+    (try simp only [St.setDone, St.setBg] at hi') <;> (repeat' split at hi') <;> (try simp only [List.getElem?_set] at hi') <;> grind [St.setBg, St.setDone, St.bg, Alt, clearW, onOk, onErr, selNext, afterSetErr, ackWs, afterCmd, nextC]
   | otxWaitComp _ i lg hi =>
     intro i' b' site' lg' hi'
-    (try simp only [St.setDone, St.setBg] at hi') <;> (repeat' split at hi') <;> (try simp only [List.getElem?_set] at hi') <;> grind [St.setBg, St.setDone, St.bg, Alt, clearW, onOk, onErr, selNext, afterSetErr, ackWs]
+    (try simp only [St.setDone, St.setBg] at hi') <;> (repeat' split at hi') <;> (try simp only [List.getElem?_set] at hi') <;> grind [St.setBg, St.setDone, St.bg, Alt, clearW, onOk, onErr, selNext, afterSetErr, ackWs, afterCmd, nextC]
   | otxFail _ i lg hi =>
     intro i' b' site' lg' hi'
-    (try simp only [St.setDone, St.setBg] at hi') <;> (repeat' split at hi') <;> (try simp only [List.getElem?_set] at hi') <;> grind [St.setBg, St.setDone, St.bg, Alt, clearW, onOk, onErr, selNext, afterSetErr, ackWs]
+    (try simp only [St.setDone, St.setBg] at hi') <;> (repeat' split at hi') <;> (try simp only [List.getElem?_set] at hi') <;> grind [St.setBg, St.setDone, St.bg, Alt, clearW, onOk, onErr, selNext, afterSetErr, ackWs, afterCmd, nextC]
   | otxRel _ i lg hi =>
     intro i' b' site' lg' hi'
-    (try simp only [St.setDone, St.setBg] at hi') <;> (repeat' split at hi') <;> (try simp only [List.getElem?_set] at hi') <;> grind [St.setBg, St.setDone, St.bg, Alt, clearW, onOk, onErr, selNext, afterSetErr, ackWs]
+    (try simp only [St.setDone, St.setBg] at hi') <;> (repeat' split at hi') <;> (try simp only [List.getElem?_set] at hi') <;> grind [St.setBg, St.setDone, St.bg, Alt, clearW, onOk, onErr, selNext, afterSetErr, ackWs, afterCmd, nextC]
   | otxDone _ i lg hi =>
     intro i' b' site' lg' hi'
-    (try simp only [St.setDone, St.setBg] at hi') <;> (repeat' split at hi') <;> (try simp only [List.getElem?_set] at hi') <;> grind [St.setBg, St.setDone, St.bg, Alt, clearW, onOk, onErr, selNext, afterSetErr, ackWs]
+    (try simp only [St.setDone, St.setBg] at hi') <;> (repeat' split at hi') <;> (try simp only [List.getElem?_set] at hi') <;> grind [St.setBg, St.setDone, St.bg, Alt, clearW, onOk, onErr, selNext, afterSetErr, ackWs, afterCmd, nextC]
   | lgWriteOk _ i hi =>
     intro i' b' site' lg' hi'
-    (try simp only [St.setDone, St.setBg] at hi') <;> (repeat' split at hi') <;> (try simp only [List.getElem?_set] at hi') <;> grind [St.setBg, St.setDone, St.bg, Alt, clearW, onOk, onErr, selNext, afterSetErr, ackWs]
+    (try simp only [St.setDone, St.setBg] at hi') <;> (repeat' split at hi') <;> (try simp only [List.getElem?_set] at hi') <;> grind [St.setBg, St.setDone, St.bg, Alt, clearW, onOk, onErr, selNext, afterSetErr, ackWs, afterCmd, nextC]
   | lgWriteFail _ i hi =>
     intro i' b' site' lg' hi'
-    (try simp only [St.setDone, St.setBg] at hi') <;> (repeat' split at hi') <;> (try simp only [List.getElem?_set] at hi') <;> grind [St.setBg, St.setDone, St.bg, Alt, clearW, onOk, onErr, selNext, afterSetErr, ackWs]
+    (try simp only [St.setDone, St.setBg] at hi') <;> (repeat' split at hi') <;> (try simp only [List.getElem?_set] at hi') <;> grind [St.setBg, St.setDone, St.bg, Alt, clearW, onOk, onErr, selNext, afterSetErr, ackWs, afterCmd, nextC]
   | cmLockTr _ i lg hi hl =>
     intro i' b' site' lg' hi'
-    (try simp only [St.setDone, St.setBg] at hi') <;> (repeat' split at hi') <;> (try simp only [List.getElem?_set] at hi') <;> grind [St.setBg, St.setDone, St.bg, Alt, clearW, onOk, onErr, selNext, afterSetErr, ackWs]
+    (try simp only [St.setDone, St.setBg] at hi') <;> (repeat' split at hi') <;> (try simp only [List.getElem?_set] at hi') <;> grind [St.setBg, St.setDone, St.bg, Alt, clearW, onOk, onErr, selNext, afterSetErr, ackWs, afterCmd, nextC]
   | cmFlushOk _ i lg hi =>
     intro i' b' site' lg' hi'
-    (try simp only [St.setDone, St.setBg] at hi') <;> (repeat' split at hi') <;> (try simp only [List.getElem?_set] at hi') <;> grind [St.setBg, St.setDone, St.bg, Alt, clearW, onOk, onErr, selNext, afterSetErr, ackWs]
+    (try simp only [St.setDone, St.setBg] at hi') <;> (repeat' split at hi') <;> (try simp only [List.getElem?_set] at hi') <;> grind [St.setBg, St.setDone, St.bg, Alt, clearW, onOk, onErr, selNext, afterSetErr, ackWs, afterCmd, nextC]
   | cmFlushEmpty _ i lg hi =>
     intro i' b' site' lg' hi'
-    (try simp only [St.setDone, St.setBg] at hi') <;> (repeat' split at hi') <;> (try simp only [List.getElem?_set] at hi') <;> grind [St.setBg, St.setDone, St.bg, Alt, clearW, onOk, onErr, selNext, afterSetErr, ackWs]
+    (try simp only [St.setDone, St.setBg] at hi') <;> (repeat' split at hi') <;> (try simp only [List.getElem?_set] at hi') <;> grind [St.setBg, St.setDone, St.bg, Alt, clearW, onOk, onErr, selNext, afterSetErr, ackWs, afterCmd, nextC]
   | cmFlushFail _ i lg hi =>
     intro i' b' site' lg' hi'
-    (try simp only [St.setDone, St.setBg] at hi') <;> (repeat' split at hi') <;> (try simp only [List.getElem?_set] at hi') <;> grind [St.setBg, St.setDone, St.bg, Alt, clearW, onOk, onErr, selNext, afterSetErr, ackWs]
+    (try simp only [St.setDone, St.setBg] at hi') <;> (repeat' split at hi') <;> (try simp only [List.getElem?_set] at hi') <;> grind [St.setBg, St.setDone, St.bg, Alt, clearW, onOk, onErr, selNext, afterSetErr, ackWs, afterCmd, nextC]
   | cmLockClk _ i lg hi hl =>
     intro i' b' site' lg' hi'
-    (try simp only [St.setDone, St.setBg] at hi') <;> (repeat' split at hi') <;> (try simp only [List.getElem?_set] at hi') <;> grind [St.setBg, St.setDone, St.bg, Alt, clearW, onOk, onErr, selNext, afterSetErr, ackWs]
+    (try simp only [St.setDone, St.setBg] at hi') <;> (repeat' split at hi') <;> (try simp only [List.getElem?_set] at hi') <;> grind [St.setBg, St.setDone, St.bg, Alt, clearW, onOk, onErr, selNext, afterSetErr, ackWs, afterCmd, nextC]
   | cmTryOk _ i k lg hi =>
     intro i' b' site' lg' hi'
-    (try simp only [St.setDone, St.setBg] at hi') <;> (repeat' split at hi') <;> (try simp only [List.getElem?_set] at hi') <;> grind [St.setBg, St.setDone, St.bg, Alt, clearW, onOk, onErr, selNext, afterSetErr, ackWs]
+    (try simp only [St.setDone, St.setBg] at hi') <;> (repeat' split at hi') <;> (try simp only [List.getElem?_set] at hi') <;> grind [St.setBg, St.setDone, St.bg, Alt, clearW, onOk, onErr, selNext, afterSetErr, ackWs, afterCmd, nextC]
   | cmTryFail _ i k lg hi =>
     intro i' b' site' lg' hi'
-    (try simp only [St.setDone, St.setBg] at hi') <;> (repeat' split at hi') <;> (try simp only [List.getElem?_set] at hi') <;> grind [St.setBg, St.setDone, St.bg, Alt, clearW, onOk, onErr, selNext, afterSetErr, ackWs]
+    (try simp only [St.setDone, St.setBg] at hi') <;> (repeat' split at hi') <;> (try simp only [List.getElem?_set] at hi') <;> grind [St.setBg, St.setDone, St.bg, Alt, clearW, onOk, onErr, selNext, afterSetErr, ackWs, afterCmd, nextC]
   | cmSleepTimer _ i k lg hi =>
     intro i' b' site' lg' hi'
-    (try simp only [St.setDone, St.setBg] at hi') <;> (repeat' split at hi') <;> (try simp only [List.getElem?_set] at hi') <;> grind [St.setBg, St.setDone, St.bg, Alt, clearW, onOk, onErr, selNext, afterSetErr, ackWs]
+    (try simp only [St.setDone, St.setBg] at hi') <;> (repeat' split at hi') <;> (try simp only [List.getElem?_set] at hi') <;> grind [St.setBg, St.setDone, St.bg, Alt, clearW, onOk, onErr, selNext, afterSetErr, ackWs, afterCmd, nextC]
   | cmSleepClosed _ i k lg hi hc =>
     intro i' b' site' lg' hi'
-    (try simp only [St.setDone, St.setBg] at hi') <;> (repeat' split at hi') <;> (try simp only [List.getElem?_set] at hi') <;> grind [St.setBg, St.setDone, St.bg, Alt, clearW, onOk, onErr, selNext, afterSetErr, ackWs]
+    (try simp only [St.setDone, St.setBg] at hi') <;> (repeat' split at hi') <;> (try simp only [List.getElem?_set] at hi') <;> grind [St.setBg, St.setDone, St.bg, Alt, clearW, onOk, onErr, selNext, afterSetErr, ackWs, afterCmd, nextC]
   | cmFail3 _ i lg hi =>
     intro i' b' site' lg' hi'
-    (try simp only [St.setDone, St.setBg] at hi') <;> (repeat' split at hi') <;> (try simp only [List.getElem?_set] at hi') <;> grind [St.setBg, St.setDone, St.bg, Alt, clearW, onOk, onErr, selNext, afterSetErr, ackWs]
+    (try simp only [St.setDone, St.setBg] at hi') <;> (repeat' split at hi') <;> (try simp only [List.getElem?_set] at hi') <;> grind [St.setBg, St.setDone, St.bg, Alt, clearW, onOk, onErr, selNext, afterSetErr, ackWs, afterCmd, nextC]
   | cmAfterOk _ i lg hi =>
     intro i' b' site' lg' hi'
-    (try simp only [St.setDone, St.setBg] at hi') <;> (repeat' split at hi') <;> (try simp only [List.getElem?_set] at hi') <;> grind [St.setBg, St.setDone, St.bg, Alt, clearW, onOk, onErr, selNext, afterSetErr, ackWs]
+    (try simp only [St.setDone, St.setBg] at hi') <;> (repeat' split at hi') <;> (try simp only [List.getElem?_set] at hi') <;> grind [St.setBg, St.setDone, St.bg, Alt, clearW, onOk, onErr, selNext, afterSetErr, ackWs, afterCmd, nextC]
   | cmNoWaitComp _ i lg hi =>
     intro i' b' site' lg' hi'
-    (try simp only [St.setDone, St.setBg] at hi') <;> (repeat' split at hi') <;> (try simp only [List.getElem?_set] at hi') <;> grind [St.setBg, St.setDone, St.bg, Alt, clearW, onOk, onErr, selNext, afterSetErr, ackWs]
+    (try simp only [St.setDone, St.setBg] at hi') <;> (repeat' split at hi') <;> (try simp only [List.getElem?_set] at hi') <;> grind [St.setBg, St.setDone, St.bg, Alt, clearW, onOk, onErr, selNext, afterSetErr, ackWs, afterCmd, nextC]
   | cmWaitComp _ i lg hi =>
     intro i' b' site' lg' hi'
-    (try simp only [St.setDone, St.setBg] at hi') <;> (repeat' split at hi') <;> (try simp only [List.getElem?_set] at hi') <;> grind [St.setBg, St.setDone, St.bg, Alt, clearW, onOk, onErr, selNext, afterSetErr, ackWs]
+    (try simp only [St.setDone, St.setBg] at hi') <;> (repeat' split at hi') <;> (try simp only [List.getElem?_set] at hi') <;> grind [St.setBg, St.setDone, St.bg, Alt, clearW, onOk, onErr, selNext, afterSetErr, ackWs, afterCmd, nextC]
   | cmDone _ i lg hi =>
     intro i' b' site' lg' hi'
-    (try simp only [St.setDone, St.setBg] at hi') <;> (repeat' split at hi') <;> (try simp only [List.getElem?_set] at hi') <;> grind [St.setBg, St.setDone, St.bg, Alt, clearW, onOk, onErr, selNext, afterSetErr, ackWs]
+    (try simp only [St.setDone, St.setBg] at hi') <;> (repeat' split at hi') <;> (try simp only [List.getElem?_set] at hi') <;> grind [St.setBg, St.setDone, St.bg, Alt, clearW, onOk, onErr, selNext, afterSetErr, ackWs, afterCmd, nextC]
   | cmRet _ i ok lg hi =>
     intro i' b' site' lg' hi'
-    (try simp only [St.setDone, St.setBg] at hi') <;> (repeat' split at hi') <;> (try simp only [List.getElem?_set] at hi') <;> grind [St.setBg, St.setDone, St.bg, Alt, clearW, onOk, onErr, selNext, afterSetErr, ackWs]
+    (try simp only [St.setDone, St.setBg] at hi') <;> (repeat' split at hi') <;> (try simp only [List.getElem?_set] at hi') <;> grind [St.setBg, St.setDone, St.bg, Alt, clearW, onOk, onErr, selNext, afterSetErr, ackWs, afterCmd, nextC]
   | dcLockTr _ i lg hi hl =>
     intro i' b' site' lg' hi'
-    (try simp only [St.setDone, St.setBg] at hi') <;> (repeat' split at hi') <;> (try simp only [List.getElem?_set] at hi') <;> grind [St.setBg, St.setDone, St.bg, Alt, clearW, onOk, onErr, selNext, afterSetErr, ackWs]
+    (try simp only [St.setDone, St.setBg] at hi') <;> (repeat' split at hi') <;> (try simp only [List.getElem?_set] at hi') <;> grind [St.setBg, St.setDone, St.bg, Alt, clearW, onOk, onErr, selNext, afterSetErr, ackWs, afterCmd, nextC]
   | dcBody _ i lg hi =>
     intro i' b' site' lg' hi'
-    (try simp only [St.setDone, St.setBg] at hi') <;> (repeat' split at hi') <;> (try simp only [List.getElem?_set] at hi') <;> grind [St.setBg, St.setDone, St.bg, Alt, clearW, onOk, onErr, selNext, afterSetErr, ackWs]
+    (try simp only [St.setDone, St.setBg] at hi') <;> (repeat' split at hi') <;> (try simp only [List.getElem?_set] at hi') <;> grind [St.setBg, St.setDone, St.bg, Alt, clearW, onOk, onErr, selNext, afterSetErr, ackWs, afterCmd, nextC]
   | crNoOverlap _ i hi =>
     intro i' b' site' lg' hi'
-    (try simp only [St.setDone, St.setBg] at hi') <;> (repeat' split at hi') <;> (try simp only [List.getElem?_set] at hi') <;> grind [St.setBg, St.setDone, St.bg, Alt, clearW, onOk, onErr, selNext, afterSetErr, ackWs]
+    (try simp only [St.setDone, St.setBg] at hi') <;> (repeat' split at hi') <;> (try simp only [List.getElem?_set] at hi') <;> grind [St.setBg, St.setDone, St.bg, Alt, clearW, onOk, onErr, selNext, afterSetErr, ackWs, afterCmd, nextC]
   | crOverlap _ i hi =>
     intro i' b' site' lg' hi'
-    (try simp only [St.setDone, St.setBg] at hi') <;> (repeat' split at hi') <;> (try simp only [List.getElem?_set] at hi') <;> grind [St.setBg, St.setDone, St.bg, Alt, clearW, onOk, onErr, selNext, afterSetErr, ackWs]
+    (try simp only [St.setDone, St.setBg] at hi') <;> (repeat' split at hi') <;> (try simp only [List.getElem?_set] at hi') <;> grind [St.setBg, St.setDone, St.bg, Alt, clearW, onOk, onErr, selNext, afterSetErr, ackWs, afterCmd, nextC]
   | crNewMemOk _ i hi =>
     intro i' b' site' lg' hi'
-    (try simp only [St.setDone, St.setBg] at hi') <;> (repeat' split at hi') <;> (try simp only [List.getElem?_set] at hi') <;> grind [St.setBg, St.setDone, St.bg, Alt, clearW, onOk, onErr, selNext, afterSetErr, ackWs]
+    (try simp only [St.setDone, St.setBg] at hi') <;> (repeat' split at hi') <;> (try simp only [List.getElem?_set] at hi') <;> grind [St.setBg, St.setDone, St.bg, Alt, clearW, onOk, onErr, selNext, afterSetErr, ackWs, afterCmd, nextC]
   | crNewMemFail _ i hi =>
     intro i' b' site' lg' hi'
-    (try simp only [St.setDone, St.setBg] at hi') <;> (repeat' split at hi') <;> (try simp only [List.getElem?_set] at hi') <;> grind [St.setBg, St.setDone, St.bg, Alt, clearW, onOk, onErr, selNext, afterSetErr, ackWs]
+    (try simp only [St.setDone, St.setBg] at hi') <;> (repeat' split at hi') <;> (try simp only [List.getElem?_set] at hi') <;> grind [St.setBg, St.setDone, St.bg, Alt, clearW, onOk, onErr, selNext, afterSetErr, ackWs, afterCmd, nextC]
   | crRelM _ i hi =>
     intro i' b' site' lg' hi'
-    (try simp only [St.setDone, St.setBg] at hi') <;> (repeat' split at hi') <;> (try simp only [List.getElem?_set] at hi') <;> grind [St.setBg, St.setDone, St.bg, Alt, clearW, onOk, onErr, selNext, afterSetErr, ackWs]
+    (try simp only [St.setDone, St.setBg] at hi') <;> (repeat' split at hi') <;> (try simp only [List.getElem?_set] at hi') <;> grind [St.setBg, St.setDone, St.bg, Alt, clearW, onOk, onErr, selNext, afterSetErr, ackWs, afterCmd, nextC]
   | crRelOk _ i hi =>
     intro i' b' site' lg' hi'
-    (try simp only [St.setDone, St.setBg] at hi') <;> (repeat' split at hi') <;> (try simp only [List.getElem?_set] at hi') <;> grind [St.setBg, St.setDone, St.bg, Alt, clearW, onOk, onErr, selNext, afterSetErr, ackWs]
+    (try simp only [St.setDone, St.setBg] at hi') <;> (repeat' split at hi') <;> (try simp only [List.getElem?_set] at hi') <;> grind [St.setBg, St.setDone, St.bg, Alt, clearW, onOk, onErr, selNext, afterSetErr, ackWs, afterCmd, nextC]
   | crRelFail _ i hi =>
     intro i' b' site' lg' hi'
-    (try simp only [St.setDone, St.setBg] at hi') <;> (repeat' split at hi') <;> (try simp only [List.getElem?_set] at hi') <;> grind [St.setBg, St.setDone, St.bg, Alt, clearW, onOk, onErr, selNext, afterSetErr, ackWs]
+    (try simp only [St.setDone, St.setBg] at hi') <;> (repeat' split at hi') <;> (try simp only [List.getElem?_set] at hi') <;> grind [St.setBg, St.setDone, St.bg, Alt, clearW, onOk, onErr, selNext, afterSetErr, ackWs, afterCmd, nextC]
   | srSend _ i hi he =>
     intro i' b' site' lg' hi'
-    (try simp only [St.setDone, St.setBg] at hi') <;> (repeat' split at hi') <;> (try simp only [List.getElem?_set] at hi') <;> grind [St.setBg, St.setDone, St.bg, Alt, clearW, onOk, onErr, selNext, afterSetErr, ackWs]
+    simp only [hm, recvs_asCoded] at he
+    simp only [hm, next_asCoded]
+    simp only [hm, next_asCoded] at hi'
+    (try simp only [St.setDone, St.setBg] at hi') <;> (repeat' split at hi') <;> (try simp only [List.getElem?_set] at hi') <;> grind [St.setBg, St.setDone, St.bg, Alt, clearW, onOk, onErr, selNext, afterSetErr, ackWs, afterCmd, nextC]
   | srPerErr _ i hi he =>
     intro i' b' site' lg' hi'
-    (try simp only [St.setDone, St.setBg] at hi') <;> (repeat' split at hi') <;> (try simp only [List.getElem?_set] at hi') <;> grind [St.setBg, St.setDone, St.bg, Alt, clearW, onOk, onErr, selNext, afterSetErr, ackWs]
+    (try simp only [St.setDone, St.setBg] at hi') <;> (repeat' split at hi') <;> (try simp only [List.getElem?_set] at hi') <;> grind [St.setBg, St.setDone, St.bg, Alt, clearW, onOk, onErr, selNext, afterSetErr, ackWs, afterCmd, nextC]
   | srClosed _ i hi hc =>
     intro i' b' site' lg' hi'
-    (try simp only [St.setDone, St.setBg] at hi') <;> (repeat' split at hi') <;> (try simp only [List.getElem?_set] at hi') <;> grind [St.setBg, St.setDone, St.bg, Alt, clearW, onOk, onErr, selNext, afterSetErr, ackWs]
+    (try simp only [St.setDone, St.setBg] at hi') <;> (repeat' split at hi') <;> (try simp only [List.getElem?_set] at hi') <;> grind [St.setBg, St.setDone, St.bg, Alt, clearW, onOk, onErr, selNext, afterSetErr, ackWs, afterCmd, nextC]
   | clCheckTr _ i hi =>
     intro i' b' site' lg' hi'
-    (try simp only [St.setDone, St.setBg] at hi') <;> (repeat' split at hi') <;> (try simp only [List.getElem?_set] at hi') <;> grind [St.setBg, St.setDone, St.bg, Alt, clearW, onOk, onErr, selNext, afterSetErr, ackWs]
+    (try simp only [St.setDone, St.setBg] at hi') <;> (repeat' split at hi') <;> (try simp only [List.getElem?_set] at hi') <;> grind [St.setBg, St.setDone, St.bg, Alt, clearW, onOk, onErr, selNext, afterSetErr, ackWs, afterCmd, nextC]
   | clLockTr _ i hi hl =>
     intro i' b' site' lg' hi'
-    (try simp only [St.setDone, St.setBg] at hi') <;> (repeat' split at hi') <;> (try simp only [List.getElem?_set] at hi') <;> grind [St.setBg, St.setDone, St.bg, Alt, clearW, onOk, onErr, selNext, afterSetErr, ackWs]
+    (try simp only [St.setDone, St.setBg] at hi') <;> (repeat' split at hi') <;> (try simp only [List.getElem?_set] at hi') <;> grind [St.setBg, St.setDone, St.bg, Alt, clearW, onOk, onErr, selNext, afterSetErr, ackWs, afterCmd, nextC]
   | clBody _ i hi =>
     intro i' b' site' lg' hi'
-    (try simp only [St.setDone, St.setBg] at hi') <;> (repeat' split at hi') <;> (try simp only [List.getElem?_set] at hi') <;> grind [St.setBg, St.setDone, St.bg, Alt, clearW, onOk, onErr, selNext, afterSetErr, ackWs]
+    (try simp only [St.setDone, St.setBg] at hi') <;> (repeat' split at hi') <;> (try simp only [List.getElem?_set] at hi') <;> grind [St.setBg, St.setDone, St.bg, Alt, clearW, onOk, onErr, selNext, afterSetErr, ackWs, afterCmd, nextC]
   | clAcq _ i hi ht =>
     intro i' b' site' lg' hi'
-    (try simp only [St.setDone, St.setBg] at hi') <;> (repeat' split at hi') <;> (try simp only [List.getElem?_set] at hi') <;> grind [St.setBg, St.setDone, St.bg, Alt, clearW, onOk, onErr, selNext, afterSetErr, ackWs]
+    (try simp only [St.setDone, St.setBg] at hi') <;> (repeat' split at hi') <;> (try simp only [List.getElem?_set] at hi') <;> grind [St.setBg, St.setDone, St.bg, Alt, clearW, onOk, onErr, selNext, afterSetErr, ackWs, afterCmd, nextC]
   | clWait _ i hi hm ht =>
     intro i' b' site' lg' hi'
-    (try simp only [St.setDone, St.setBg] at hi') <;> (repeat' split at hi') <;> (try simp only [List.getElem?_set] at hi') <;> grind [St.setBg, St.setDone, St.bg, Alt, clearW, onOk, onErr, selNext, afterSetErr, ackWs]
-  | ehAcquire _ he ht hn =>
+    (try simp only [St.setDone, St.setBg] at hi') <;> (repeat' split at hi') <;> (try simp only [List.getElem?_set] at hi') <;> grind [St.setBg, St.setDone, St.bg, Alt, clearW, onOk, onErr, selNext, afterSetErr, ackWs, afterCmd, nextC]
+  | ehAcquire _ he ht =>
     intro i' b' site' lg' hi'
-    (try simp only [St.setDone, St.setBg] at hi') <;> (repeat' split at hi') <;> (try simp only [List.getElem?_set] at hi') <;> grind [St.setBg, St.setDone, St.bg, Alt, clearW, onOk, onErr, selNext, afterSetErr, ackWs]
-  | ehExit _ he hc =>
+    (try simp only [St.setDone, St.setBg] at hi') <;> (repeat' split at hi') <;> (try simp only [List.getElem?_set] at hi') <;> grind [St.setBg, St.setDone, St.bg, Alt, clearW, onOk, onErr, selNext, afterSetErr, ackWs, afterCmd, nextC]
+  | ehClose _ he hc =>
     intro i' b' site' lg' hi'
-    (try simp only [St.setDone, St.setBg] at hi') <;> (repeat' split at hi') <;> (try simp only [List.getElem?_set] at hi') <;> grind [St.setBg, St.setDone, St.bg, Alt, clearW, onOk, onErr, selNext, afterSetErr, ackWs]
+    (try simp only [St.setDone, St.setBg] at hi') <;> (repeat' split at hi') <;> (try simp only [List.getElem?_set] at hi') <;> grind [St.setBg, St.setDone, St.bg, Alt, clearW, onOk, onErr, selNext, afterSetErr, ackWs, afterCmd, nextC]
+  | ehTake _ he ht =>
+    intro i' b' site' lg' hi'
+    (try simp only [St.setDone, St.setBg] at hi') <;> (repeat' split at hi') <;> (try simp only [List.getElem?_set] at hi') <;> grind [St.setBg, St.setDone, St.bg, Alt, clearW, onOk, onErr, selNext, afterSetErr, ackWs, afterCmd, nextC]
   | bgExitIdle _ b hb hc =>
     intro i' b' site' lg' hi'
-    (try simp only [St.setDone, St.setBg] at hi') <;> (repeat' split at hi') <;> (try simp only [List.getElem?_set] at hi') <;> grind [St.setBg, St.setDone, St.bg, Alt, clearW, onOk, onErr, selNext, afterSetErr, ackWs]
+    (try simp only [St.setDone, St.setBg] at hi') <;> (repeat' split at hi') <;> (try simp only [List.getElem?_set] at hi') <;> grind [St.setBg, St.setDone, St.bg, Alt, clearW, onOk, onErr, selNext, afterSetErr, ackWs, afterCmd, nextC]
+  | bgExitParked _ hb hc =>
+    intro i' b' site' lg' hi'
+    (try simp only [St.setDone, St.setBg] at hi') <;> (repeat' split at hi') <;> (try simp only [List.getElem?_set] at hi') <;> grind [St.setBg, St.setDone, St.bg, Alt, clearW, onOk, onErr, selNext, afterSetErr, ackWs, afterCmd, nextC]
+  | bgWorkCorrupt _ b w hb hk =>
+    intro i' b' site' lg' hi'
+    (try simp only [St.setDone, St.setBg] at hi') <;> (repeat' split at hi') <;> (try simp only [List.getElem?_set] at hi') <;> grind [St.setBg, St.setDone, St.bg, Alt, clearW, onOk, onErr, selNext, afterSetErr, ackWs, afterCmd, nextC]
+  | bgCommitCorrupt _ b w hb hk =>
+    intro i' b' site' lg' hi'
+    (try simp only [St.setDone, St.setBg] at hi') <;> (repeat' split at hi') <;> (try simp only [List.getElem?_set] at hi') <;> grind [St.setBg, St.setDone, St.bg, Alt, clearW, onOk, onErr, selNext, afterSetErr, ackWs, afterCmd, nextC]
+  | bgSetErrCorrupt _ b w c hb he =>
+    intro i' b' site' lg' hi'
+    simp only [hm, recvs_asCoded] at he
+    simp only [hm, next_asCoded]
+    simp only [hm, next_asCoded] at hi'
+    (try simp only [St.setDone, St.setBg] at hi') <;> (repeat' split at hi') <;> (try simp only [List.getElem?_set] at hi') <;> grind [St.setBg, St.setDone, St.bg, Alt, clearW, onOk, onErr, selNext, afterSetErr, ackWs, afterCmd, nextC]
   | bgWorkOk _ b w hb =>
     intro i' b' site' lg' hi'
-    (try simp only [St.setDone, St.setBg] at hi') <;> (repeat' split at hi') <;> (try simp only [List.getElem?_set] at hi') <;> grind [St.setBg, St.setDone, St.bg, Alt, clearW, onOk, onErr, selNext, afterSetErr, ackWs]
+    (try simp only [St.setDone, St.setBg] at hi') <;> (repeat' split at hi') <;> (try simp only [List.getElem?_set] at hi') <;> grind [St.setBg, St.setDone, St.bg, Alt, clearW, onOk, onErr, selNext, afterSetErr, ackWs, afterCmd, nextC]
   | bgWorkFail _ b w hb =>
     intro i' b' site' lg' hi'
-    (try simp only [St.setDone, St.setBg] at hi') <;> (repeat' split at hi') <;> (try simp only [List.getElem?_set] at hi') <;> grind [St.setBg, St.setDone, St.bg, Alt, clearW, onOk, onErr, selNext, afterSetErr, ackWs]
+    (try simp only [St.setDone, St.setBg] at hi') <;> (repeat' split at hi') <;> (try simp only [List.getElem?_set] at hi') <;> grind [St.setBg, St.setDone, St.bg, Alt, clearW, onOk, onErr, selNext, afterSetErr, ackWs, afterCmd, nextC]
   | bgCommitOk _ b w hb =>
     intro i' b' site' lg' hi'
-    (try simp only [St.setDone, St.setBg] at hi') <;> (repeat' split at hi') <;> (try simp only [List.getElem?_set] at hi') <;> grind [St.setBg, St.setDone, St.bg, Alt, clearW, onOk, onErr, selNext, afterSetErr, ackWs]
+    (try simp only [St.setDone, St.setBg] at hi') <;> (repeat' split at hi') <;> (try simp only [List.getElem?_set] at hi') <;> grind [St.setBg, St.setDone, St.bg, Alt, clearW, onOk, onErr, selNext, afterSetErr, ackWs, afterCmd, nextC]
   | bgCommitFail _ b w hb =>
     intro i' b' site' lg' hi'
-    (try simp only [St.setDone, St.setBg] at hi') <;> (repeat' split at hi') <;> (try simp only [List.getElem?_set] at hi') <;> grind [St.setBg, St.setDone, St.bg, Alt, clearW, onOk, onErr, selNext, afterSetErr, ackWs]
+    (try simp only [St.setDone, St.setBg] at hi') <;> (repeat' split at hi') <;> (try simp only [List.getElem?_set] at hi') <;> grind [St.setBg, St.setDone, St.bg, Alt, clearW, onOk, onErr, selNext, afterSetErr, ackWs, afterCmd, nextC]
   | bgSetErr _ b w ok c hb he =>
     intro i' b' site' lg' hi'
-    (try simp only [St.setDone, St.setBg] at hi') <;> (repeat' split at hi') <;> (try simp only [List.getElem?_set] at hi') <;> grind [St.setBg, St.setDone, St.bg, Alt, clearW, onOk, onErr, selNext, afterSetErr, ackWs]
+    simp only [hm, recvs_asCoded] at he
+    simp only [hm, next_asCoded]
+    simp only [hm, next_asCoded] at hi'
+    (try simp only [St.setDone, St.setBg] at hi') <;> (repeat' split at hi') <;> (try simp only [List.getElem?_set] at hi') <;> grind [St.setBg, St.setDone, St.bg, Alt, clearW, onOk, onErr, selNext, afterSetErr, ackWs, afterCmd, nextC]
   | bgSetErrPer _ b w c hb he =>
     intro i' b' site' lg' hi'
-    (try simp only [St.setDone, St.setBg] at hi') <;> (repeat' split at hi') <;> (try simp only [List.getElem?_set] at hi') <;> grind [St.setBg, St.setDone, St.bg, Alt, clearW, onOk, onErr, selNext, afterSetErr, ackWs]
+    (try simp only [St.setDone, St.setBg] at hi') <;> (repeat' split at hi') <;> (try simp only [List.getElem?_set] at hi') <;> grind [St.setBg, St.setDone, St.bg, Alt, clearW, onOk, onErr, selNext, afterSetErr, ackWs, afterCmd, nextC]
   | bgBackoff _ b w c hb =>
     intro i' b' site' lg' hi'
-    (try simp only [St.setDone, St.setBg] at hi') <;> (repeat' split at hi') <;> (try simp only [List.getElem?_set] at hi') <;> grind [St.setBg, St.setDone, St.bg, Alt, clearW, onOk, onErr, selNext, afterSetErr, ackWs]
+    (try simp only [St.setDone, St.setBg] at hi') <;> (repeat' split at hi') <;> (try simp only [List.getElem?_set] at hi') <;> grind [St.setBg, St.setDone, St.bg, Alt, clearW, onOk, onErr, selNext, afterSetErr, ackWs, afterCmd, nextC]
   | bgLockClk _ b w hb hl =>
     intro i' b' site' lg' hi'
-    (try simp only [St.setDone, St.setBg] at hi') <;> (repeat' split at hi') <;> (try simp only [List.getElem?_set] at hi') <;> grind [St.setBg, St.setDone, St.bg, Alt, clearW, onOk, onErr, selNext, afterSetErr, ackWs]
+    (try simp only [St.setDone, St.setBg] at hi') <;> (repeat' split at hi') <;> (try simp only [List.getElem?_set] at hi') <;> grind [St.setBg, St.setDone, St.bg, Alt, clearW, onOk, onErr, selNext, afterSetErr, ackWs, afterCmd, nextC]
   | bgAck _ b w hb =>
     intro i' b' site' lg' hi'
     have := ackWs_get s.ws w b i' b' site' lg' (by cases b <;> simpa [St.setBg] using hi')
-    cases b <;> grind [St.setBg, St.setDone, St.bg, Alt, clearW, onOk, onErr, selNext, afterSetErr, ackWs]
+    cases b <;> grind [St.setBg, St.setDone, St.bg, Alt, clearW, onOk, onErr, selNext, afterSetErr, ackWs, afterCmd, nextC]
   | bgExit _ b w ph hb hx =>
     intro i' b' site' lg' hi'
-    (try simp only [St.setDone, St.setBg] at hi') <;> (repeat' split at hi') <;> (try simp only [List.getElem?_set] at hi') <;> grind [St.setBg, St.setDone, St.bg, Alt, clearW, onOk, onErr, selNext, afterSetErr, ackWs]
+    simp only [hm, offPer_asCoded] at hx
+    (try simp only [St.setDone, St.setBg] at hi') <;> (repeat' split at hi') <;> (try simp only [List.getElem?_set] at hi') <;> grind [St.setBg, St.setDone, St.bg, Alt, clearW, onOk, onErr, selNext, afterSetErr, ackWs, afterCmd, nextC]
 
 end GoLevel.Locks
